@@ -69,6 +69,31 @@ fn apply(pb: &ProgressBar, op: &Op) -> Result<(), String> {
         "wrap_iter" => call(|| {
             for _ in pb.wrap_iter(0..(a as usize)) {}
         }),
+        // builders reach the shared state through a clone of the handle
+        "with_message" => call(|| drop(pb.clone().with_message(op.s0().to_string()))),
+        "with_prefix" => call(|| drop(pb.clone().with_prefix(op.s0().to_string()))),
+        "with_position" => call(|| drop(pb.clone().with_position(a))),
+        "with_tab_width" => call(|| drop(pb.clone().with_tab_width(a as usize))),
+        "clone_drop" => call(|| {
+            let c = pb.clone();
+            let w = c.downgrade();
+            drop(c);
+            if let Some(u) = w.upgrade() {
+                u.inc(1);
+            }
+        }),
+        "wrap_write" => call(|| {
+            use std::io::Write;
+            let mut w = pb.wrap_write(Vec::new());
+            let _ = w.write_all(&vec![7u8; (a % 300) as usize]);
+            let _ = w.flush();
+        }),
+        "wrap_read" => call(|| {
+            use std::io::Read;
+            let data = vec![1u8; (a % 300) as usize];
+            let mut out = Vec::new();
+            let _ = pb.wrap_read(&data[..]).read_to_end(&mut out);
+        }),
         "getters" => call(|| {
             let _ = (pb.eta(), pb.per_sec(), pb.duration(), pb.elapsed(), pb.is_hidden());
         }),
@@ -248,6 +273,44 @@ fn exec(sc: &Scenario) -> Report {
                 sched::sleep(op.n0());
                 continue;
             }
+            if op.k == "mp_call" {
+                // calls on the hidden MultiProgress itself are silent, too (the file behind the
+                // non-tty Term is looked at when the run ends)
+                if matches!(way, "mp_hidden" | "mp_non_tty") || (way == "mp_hidden_later" && silent_from.is_some()) {
+                    if let Some(mp) = &mp_keep {
+                        let spy_before = spy.n_all();
+                        let res = call(|| match op.n0() % 6 {
+                            0 => {
+                                let _ = mp.println("mp line");
+                            }
+                            1 => {
+                                let _ = mp.clear();
+                            }
+                            2 => mp.suspend(|| ()),
+                            3 => mp.set_alignment(if op.n0() % 12 < 6 { indicatif::MultiProgressAlignment::Bottom } else { indicatif::MultiProgressAlignment::Top }),
+                            4 => {
+                                let extra = mp.add(ProgressBar::with_draw_target(Some(5), ProgressDrawTarget::term_like(Box::new(spy.clone()))));
+                                extra.set_style(style());
+                                extra.tick();
+                                extra.finish();
+                            }
+                            _ => {
+                                let _ = mp.is_hidden();
+                            }
+                        });
+                        if let Err(p) = res {
+                            r.violate("C06.no_panic", format!("{at} on the hidden MultiProgress panicked: {p}"));
+                            break;
+                        }
+                        if spy.n_all() != spy_before {
+                            r.violate("C06.silence", format!("{at}: the MultiProgress is hidden ({way}) but the call made {} terminal calls/queries", spy.n_all() - spy_before));
+                            break;
+                        }
+                        r.probe("calls_on_hidden_multiprogress");
+                    }
+                }
+                continue;
+            }
             if op.k == "sibling_tick" {
                 if let Some(s) = &sibling {
                     s.tick();
@@ -381,7 +444,7 @@ impl Check for C06 {
         "C06"
     }
     fn rule_text(&self) -> String {
-        "One way of being hidden per run (ProgressDrawTarget::hidden(), ProgressBar::hidden(), set_draw_target(hidden()) after having been visible, a real console::Term over a regular file = not a tty, member of a MultiProgress built on a hidden target or on the non-tty Term, bar removed from a visible MultiProgress with a live sibling, bar handed over from a visible MultiProgress to a hidden one, member of a hidden MultiProgress that is also hidden explicitly, or removed from it, before the MultiProgress gets a visible target; member of a visible MultiProgress that is hidden later - and gets a terminal again at the end: a member that redrew while hidden does not come back with the frame it showed before; the stderr bar an iterator adaptor creates for itself). A history of 3..30 calls (tick/inc/dec/set_position/set_message/set_prefix/length ops/set_style/set_tab_width/println/suspend/reset*/finish*/abandon*/finish_using_style/force_draw/update/enable+disable_steady_tick/wrap_iter/getters, clock gaps and simulated sleeps) is applied in lock-step to the hidden bar and to a visible twin on its own simulated terminal, same virtual clock. Oracle: after every call position/length/message/prefix/is_finished are equal; a spy terminal attributes every call and query to the API call in progress and must see none from the hidden bar (also while a steady ticker runs); the file behind the non-tty Term stays empty; no call panics. Non-trivial: >= 3 calls and the visible twin painted at least one frame. Distinct = distinct scenario hash.".into()
+        "One way of being hidden per run (ProgressDrawTarget::hidden(), ProgressBar::hidden(), set_draw_target(hidden()) after having been visible, a real console::Term over a regular file = not a tty, member of a MultiProgress built on a hidden target or on the non-tty Term, bar removed from a visible MultiProgress with a live sibling, bar handed over from a visible MultiProgress to a hidden one, member of a hidden MultiProgress that is also hidden explicitly, or removed from it, before the MultiProgress gets a visible target; member of a visible MultiProgress that is hidden later - and gets a terminal again at the end: a member that redrew while hidden does not come back with the frame it showed before; the stderr bar an iterator adaptor creates for itself). A history of 3..30 calls (tick/inc/dec/set_position/set_message/set_prefix/length ops/set_style/set_tab_width/println/suspend/reset*/finish*/abandon*/finish_using_style/force_draw/update/enable+disable_steady_tick/wrap_iter/wrap_read/wrap_write/the with_message, with_prefix, with_position, with_tab_width builders through a clone/clone + downgrade + upgrade/getters; on a hidden MultiProgress also its own println, clear, suspend, set_alignment, add of another bar, which must be silent as well; clock gaps and simulated sleeps) is applied in lock-step to the hidden bar and to a visible twin on its own simulated terminal, same virtual clock. Oracle: after every call position/length/message/prefix/is_finished are equal; a spy terminal attributes every call and query to the API call in progress and must see none from the hidden bar (also while a steady ticker runs); the file behind the non-tty Term stays empty; no call panics. Non-trivial: >= 3 calls and the visible twin painted at least one frame. Distinct = distinct scenario hash.".into()
     }
     fn assumptions(&self) -> Vec<String> {
         vec![
@@ -409,7 +472,7 @@ impl Check for C06 {
         let with_ticker = rng.chance(1, 5);
         for _ in 0..n {
             let a = if rng.chance(1, 3) { boundary_u64(rng) } else { rng.below(50) };
-            ops.push(match rng.weighted(&[8, 8, 3, 5, 6, 3, 4, 2, 2, 1, 1, 1, 4, 2, 1, 1, 1, 5, 2, 2, 3, if with_ticker { 3 } else { 0 }, if with_ticker { 2 } else { 0 }, 2, 2, 6, if with_ticker { 3 } else { 0 }, 3]) {
+            ops.push(match rng.weighted(&[8, 8, 3, 5, 6, 3, 4, 2, 2, 1, 1, 1, 4, 2, 1, 1, 1, 5, 2, 2, 3, if with_ticker { 3 } else { 0 }, if with_ticker { 2 } else { 0 }, 2, 2, 6, if with_ticker { 3 } else { 0 }, 3, 1, 1, 1, 1, 2, 2, 2, 3]) {
                 0 => Op::new("tick"),
                 1 => Op::new("inc").n(a),
                 2 => Op::new("dec").n(a),
@@ -437,7 +500,15 @@ impl Check for C06 {
                 24 => Op::new("getters"),
                 25 => Op::new("advance").n(*rng.pick(&[0, 1, 999_999, 1_000_000, 50_000_000, 3_000_000_000])),
                 26 => Op::new("sleep").n(*rng.pick(&[2_000_000, 30_000_000])),
-                _ => Op::new("sibling_tick"),
+                27 => Op::new("sibling_tick"),
+                28 => Op::new("with_message").s(format!("wm{}\t", rng.below(100))),
+                29 => Op::new("with_prefix").s(format!("wp{}", rng.below(100))),
+                30 => Op::new("with_position").n(a),
+                31 => Op::new("with_tab_width").n(rng.below(9)),
+                32 => Op::new("clone_drop"),
+                33 => Op::new("wrap_write").n(rng.below(300)),
+                34 => Op::new("wrap_read").n(rng.below(300)),
+                _ => Op::new("mp_call").n(rng.below(12)),
             });
         }
         sc.threads = vec![ops];
